@@ -19,6 +19,10 @@ TRANSLATORS = [
     ('helpers', 'py2coq_helpers', 'regenerate'),
     ('c07_smoothing', 'py2coq_c07', 'regenerate'),
     ('c15_stockwell', 'py2coq_c15', 'regenerate'),
+    ('c19_surface', 'py2coq_c19', 'regenerate'),
+    ('c14_timestep', 'py2coq_c14', 'regenerate'),
+    ('c18_multiple', 'py2coq_c18', 'regenerate'),
+    ('c16_loader', 'py2coq_c16', 'regenerate'),
 ]
 
 
